@@ -20,7 +20,6 @@ NA_PURE = {
 }
 
 PENDING = {
- "C18": "check under construction (claimed in DESIGN.md §3: token-passing scheduler over the real extract goroutines); not registered until it runs end to end",
 }
 
 CHECKS = {
@@ -44,9 +43,13 @@ CHECKS = {
    text="Per stored item (tape-generated geometry serialised by an independent writer that knows every field offset; its hex and GeoJSON forms; geojson.Geometry values with arbitrarily shaped coordinates; adversarial frames up to the 64 KiB bound; random strings) the storage-fault set is ENUMERATED: truncation at every offset, every single-bit flip of small items and of all header/count/type bytes of large ones, every count field overwritten with 13 values up to 2^32-1, every byte-order byte with all 256 values, every type code with 40 codes, zeroed tails, block splices; and for the io.Reader entry point an I/O error and an early EOF at every offset under several chunking schedules incl. (0,nil) and (n,EOF) reads. Every decode runs under an allocation meter (<=1024*len+4MiB), panic capture, result-shape and re-encode/decode oracles; legal reader schedules must not change the result. Items and sampled multi-fault combinations come from the seed; the per-item fault set is exhaustive as stated, the item space is sampled.",
    note="Trusted: the independent serializer/layout, the allocation meter (runtime/metrics, single goroutine), the NaN-aware equality. Workers run under ulimit -v 4 GiB; an unsurvivable allocation kills the worker and is attributed to the journalled run (class process-crash, seed-only replay). Success on truncated/error-interrupted input is only counted: the statement demands a geometry or an error, not rejection. Failing allocations/syscalls inside the Go runtime cannot be injected.",
    technique="deterministic simulation of a faulty store/stream: enumerated storage and reader faults per seeded item, allocation meter, tape-minimised replay"),
+ "C18": dict(engine="sim-osm", cat="exploration", ref="DESIGN.md §3",
+   text="The real ExtractXML (worker pool of real goroutines, channel, RWMutex-guarded maps, pass loop, osmxml scanner, errgroup) runs under a token-passing scheduler that takes every scheduling decision at every lock acquisition, channel operation, spawn and join from the seed (strategies: round-robin, uniform, sticky, PCT priorities, long worker stalls, starve-one; 1-8 workers), over a simulated file (legal short and (0,nil) reads, an I/O error at byte k of pass p, a failing Seek) and a context cancelled at a chosen scheduler step. Seeded documents (<=41 elements, shared nodes, closed ways, dangling refs, relations of relations with cycles, any element order) and keep functions (tags, bounds, all). Oracle: the sequential least-fixpoint model (key sets and stored values), Check()==nil iff nothing dangles, Filter by tags/all equals the model's filter and is idempotent, termination without deadlock within 2|doc|+2 passes; under an injected fault only (nil, error) or the exact model result is accepted.",
+   note="Trusted: the scheduler's yield placement is complete for lock-protected code (a change that removes a lock is a data race outside this design); osmxml/encoding-xml are synchronous; PBF input (unsimulated decoder goroutines) is not covered; Filter's own map order is not behind a seam (evaluated 4x per run, 64x in replay); CountTags and Geom are not part of the statement and are not checked. Workers left behind by extract's error returns are counted, not reported (C18 is silent about them).",
+   technique="deterministic simulation: token-passing scheduler over real goroutines (seeded interleavings, stalls), simulated file/seek faults and cancellation, sequential reference model, tape-minimised replay"),
 }
 
-HOOK_COMMITS = ["d39f006", "035e079"]
+HOOK_COMMITS = ["d39f006", "035e079", "6cff694"]
 
 def main():
     checks = []
